@@ -342,6 +342,9 @@ class Sym:
             if r is None:
                 continue
             lo, hi = r
+            inv = getattr(self, "invariants", {}).get(a.split("@")[0])
+            if inv:
+                lo, hi = max(lo, inv[0]), min(hi, inv[1])
             if a in self.nonneg:
                 lo = 0
                 z = getattr(self, "zext_of", {}).get(a)
@@ -589,6 +592,9 @@ def _witness(sym, block, facts, goal, atoms, removed):
         c = {-1, 0, 1}
         t = sym.atom_type.get(a)
         r = type_range(t) if t else None
+        inv = getattr(sym, "invariants", {}).get(a.split("@")[0])
+        if r and inv:
+            r = (max(r[0], inv[0]), min(r[1], inv[1]))
         if r:
             c |= {r[0], r[1], r[0] + 1, r[1] - 1}
         for f in facts + [goal]:
@@ -697,8 +703,10 @@ def _reaches(sym, block, env, removed):
     return block in _reach(fn, rem)
 
 
-def check_nsw(prog, fn, instr):
+def check_nsw(prog, fn, instr, invariants=None):
+    """invariants: optional {atom name: (lo, hi)} data invariants assumed for the atoms (e.g. a size field is positive)"""
     sym = Sym(prog, fn)
+    sym.invariants = dict(invariants or {})
     a, b = sym.expr(instr.ops[0]), sym.expr(instr.ops[1])
     if a is None or b is None:
         return Result("UNDECIDED", "operands not linear")
